@@ -116,6 +116,26 @@ EXTRA2 = {
  'C17': " Second round: proxy-reference and value-reference accessors in the 3-argument deduction guide; mdspan's own noexcept guarantees over a user layout none of whose members is noexcept.",
  'C19': " Second round: the AST facts are extracted in four configurations (C++20; C++17 + emulation hook; _MDSPAN_DEBUG; C++23 NDEBUG).",
 }
+# ---- rounds 3-5 (DESIGN.md 12.7-12.9)
+EXTRA3 = {
+ 'C01': " Later rounds: padding argument of a narrower C++ type than index_type.",
+ 'C02': " Later rounds: strides of every mapping converted to another extents type of the same layout (cvs); padding argument types.",
+ 'C03': " Later rounds: assertions + _MDSPAN_DEBUG and both-operators-forced configurations; accessor whose access() returns a reference into the accessor object; throwing accessor (the exception must reach the caller in every spelling - this found and led to the repair of defect F10, repo commit 6034f7a); the driver's at op literally evaluates Model/Access.accessOffset.",
+ 'C04': " Later rounds: theorems C14_sub_mapping / C04_sub_alias_machine / C04_chain_alias_machine: under the executable predicate subAdm (subChainAdm) the machine-level submdspan_mapping (and chains of them) that the driver runs against the C++ executes no UB and every element address it prints is the root offset of the composed index, inside the root span; views of views (ch) are run against subChainM; enum and class-type index slices; a user layout providing the submdspan_mapping customization point; rank 4-5 slice tuples.",
+ 'C05': " Later rounds: padding argument types; empty index spaces with huge strides.",
+ 'C06': " Later rounds: ranks 4-7 in conversion / comparison, C++17 configuration (hand-written operator!=) in the quick tier.",
+ 'C07': " Later rounds: mdarray over user layouts whose three flags differ.",
+ 'C08': " Later rounds: the same mixed pattern on both sides, one-dynamic-extent-differs operands, index spaces exactly filling the narrower index type, a dying server on a valid line is a violation.",
+ 'C10': " Later rounds: subLayout_admB (the sub-view of an admissible view is admissible) and C14_sub_chain (any depth at the machine level); chains from compile-time-empty first levels; boundary-end stream.",
+ 'C11': " Later rounds: C11_history_origin (after any history every view is exactly one that was supplied to a constructor); number of accessor calls made by a history must be 0.",
+ 'C14': " Later rounds: C14_sub_mapping, C14_sub_chain, C14_default_strides; admissibility by the letter of the property for layout_stride mappings that are valid only because an extent is zero.",
+ 'C15': " Later rounds: theorem C15_debug_checks_silent over a model of every run-time debug check of the library, tied to the source by an extractor of the assert / std::abort sites (vf/sites.py, lean/debug_sites.json); mixed-pattern extents construction in the C++14-only server.",
+ 'C16': " Later rounds: layout_stride (extents, array/span) constructor probes with class types whose const / non-const conversions differ; all cv combinations for default_accessor / mdspan conversions (Model/ElemCv, C16_acc_cv).",
+ 'C17': " Later rounds: exact type identity in the probes, member types over a user layout with its own size_type, stride-array constructor with throwing-copy / move-only elements.",
+ 'C18': " Later rounds: sizes compared for clang++ and g++ in C++17 as well.",
+ 'C20': " Later rounds: NDEBUG + _MDSPAN_DEBUG and assertions + _MDSPAN_DEBUG configurations; extents at the top of the narrower index type; the stride-walk sites are compared with the modelled ones (vf/sites.py).",
+}
+for k, v in EXTRA3.items(): EXTRA2[k] = EXTRA2.get(k, '') + v
 for k, v in EXTRA2.items(): EXTRA_TEXT[k] = EXTRA_TEXT.get(k, '') + v
 PARTIAL_OVERRIDE = {
  'C03': 'references are modelled as addresses (offset from the buffer base); C++ aliasing/lifetime rules are outside the model.',
